@@ -29,14 +29,15 @@ class Program(object):
         c = self.chain
         t = 'select%s' % self.src
         for f in c.get('filters', ()): t += '.filter(%r)' % f
-        if c.get('order'): t += '.order_by(lambda: (%s))' % ', '.join(('desc(%s)' % k) if d else k for k, d in c['order'])
+        if c.get('order') and not c.get('order_attrs'): t += '.order_by(lambda: (%s))' % ', '.join(('desc(%s)' % k) if d else k for k, d in c['order'])
+        if c.get('order_attrs'): t += '.order_by(%s)' % ', '.join(('desc(%s.%s)' if d else '%s.%s') % (c['order_entity'], a) for a, d in c['order_attrs'])
         if c.get('distinct') is True: t += '.distinct()'
         if c.get('distinct') is False: t += '.without_distinct()'
         f = c.get('final', ('list',))
         def sh(x): return '' if x is None else str(x)
         if f[0] == 'list': t += '[:]'
         elif f[0] == 'slice': t += '[%s:%s]' % (sh(f[1]), sh(f[2]))
-        elif f[0] == 'aggr': t += '.%s()' % f[1].lower()
+        elif f[0] == 'aggr': t += '.%s(%s)' % (f[1].lower(), repr(f[2]) if len(f) > 2 else '')
         elif f[0] == 'page': t += '.page(%s, %s)' % (f[1], f[2])
         elif f[0] == 'limit': t += '.limit(%s, offset=%s)' % (f[1], f[2])
         else: t += '.%s()' % f[0]
@@ -78,13 +79,16 @@ def build_query(db, prog):
     if c:
         for f in c.get('filters', ()):
             q = q._process_lambda(f, g, dict(scope)) if False else q.filter(f, g, dict(scope))
-        if c.get('order'):
+        if c.get('order') and not c.get('order_attrs'):
             var = loop_var(prog.src)
             keys = ', '.join(('desc(%s)' % k) if d else k for k, d in c['order'])
             # a lambda without arguments refers to the loop variables by name (works for projections too)
             q = q.order_by('lambda: (%s)' % keys if len(c['order']) > 1 else 'lambda: %s' % keys, g, dict(scope))
         if c.get('order_numbers'):
             q = q.order_by(*c['order_numbers'])
+        if c.get('order_attrs'):
+            ent = g[c['order_entity']]
+            q = q.order_by(*[core.desc(getattr(ent, a)) if d else getattr(ent, a) for a, d in c['order_attrs']])
         if c.get('distinct') is True: q = q.distinct()
         if c.get('distinct') is False: q = q.without_distinct()
     return q
@@ -95,10 +99,10 @@ def loop_var(src):
     return t.generators[0].target.id
 
 
-def real_sql(db, q, limit=None, offset=None, aggr=None):
+def real_sql(db, q, limit=None, offset=None, aggr=None, sep=None):
     """SQL text + parameter layout from the real translator and the real builder of the bound provider"""
     translator = q._translator
-    sql_ast, attr_offsets = translator.construct_sql_ast(limit, offset, q._distinct, aggr, None, None, q._for_update, q._nowait, q._skip_locked)
+    sql_ast, attr_offsets = translator.construct_sql_ast(limit, offset, q._distinct, aggr, None, sep, q._for_update, q._nowait, q._skip_locked)
     provider = db.provider
     builder = provider.sqlbuilder_cls(provider, sql_ast)
     params = [x for x in builder.result if hasattr(x, 'paramkey')]
@@ -406,7 +410,7 @@ def encode_chain(db, S, prog, dialect):
     with db_session:
         q = build_query(db, prog)
         if final[0] == 'aggr':
-            sql, params, translator = real_sql(db, q, None, None, final[1])
+            sql, params, translator = real_sql(db, q, None, None, final[1], final[2] if len(final) > 2 else None)
         else:
             # run the REAL method up to the point where it fetches: intercept Query._actual_fetch / QueryResult
             lim_off = capture_fetch(q, final)
@@ -485,6 +489,17 @@ def encode_chain(db, S, prog, dialect):
         bag = pysem.Bag([(r['g'], r['flat'][0] if len(r['flat']) == 1 or name != 'COUNT' else r['flat'][0]) for r in rows])
         if name == 'COUNT':
             val = SV('int', z3.Sum([z3.If(r['g'], z3.IntVal(1), z3.IntVal(0)) for r in rows]) if rows else z3.IntVal(0))
+        elif name == 'GROUP_CONCAT':
+            # Python: sep.join(R) over the non-missing items (slot order, as the SQL model), None for an empty result
+            sepv = z3.StringVal(',' if len(final) < 3 or final[2] is None else final[2])
+            acc, started = z3.StringVal(''), FALSE
+            for r in rows:
+                v = r['flat'][0]
+                if v.sort != 'str': raise Unmodelled('group_concat of %s' % v.sort)
+                live = z3.And(r['g'], z3.Not(v.n))
+                acc = z3.If(live, z3.If(started, z3.Concat(acc, sepv, v.t), v.t), acc)
+                started = z3.Or(started, live)
+            val = SV('str', acc, z3.Not(started))
         else:
             val = pysem.aggregate(penv, {'SUM': 'sum', 'MIN': 'min', 'MAX': 'max', 'AVG': 'avg'}[name], bag)
         py_rows = [(TRUE, [val])]
@@ -606,7 +621,8 @@ def run_real_chain(db, prog, scope_vals):
     with db_session:
         q = build_query(db, p2)
         if final[0] == 'aggr':
-            v = getattr(q, final[1].lower())()
+            if final[1] == 'GROUP_CONCAT': v = q.group_concat(final[2] if len(final) > 2 else None)
+            else: v = getattr(q, final[1].lower())()
             return [(v,)]
         if final[0] == 'list': items = q[:]
         elif final[0] == 'slice': items = q[final[1]:final[2]]
